@@ -9,10 +9,14 @@ IDS=${*:-$(seq -f 'C%02g' 1 20)}
 # VERIF_TRIAL_DIR: run the checks from another checkout of /verif (so /verif can be edited meanwhile)
 V=${VERIF_TRIAL_DIR:-/verif}
 cd "$V"
-if [ -n "$(git -C /repo status --porcelain --untracked-files=no)" ]; then echo "/repo is not clean"; exit 2; fi
-restore() { git -C /repo checkout -- . ; }
+# SEED_REPO: apply the change to that scratch worktree of /repo (checked through PPG_REPO) instead of /repo itself,
+# for exploratory runs while /repo must stay untouched; the runs recorded in seeded/*/meta.json use /repo.
+R=${SEED_REPO:-/repo}
+[ "$R" != /repo ] && export PPG_REPO="$R"
+if [ -n "$(git -C "$R" status --porcelain --untracked-files=no)" ]; then echo "$R is not clean"; exit 2; fi
+restore() { git -C "$R" checkout -- . ; }
 trap restore EXIT
-git -C /repo apply "$PATCH" || exit 2
+git -C "$R" apply "$PATCH" || exit 2
 mkdir -p out/seed
 TAG=$(basename "$(dirname "$PATCH")")_$(basename "$PATCH" .patch.diff)
 CAUGHT=""
